@@ -10,6 +10,13 @@ properties quantify over and the shared generator does not (or rarely) produce:
     other revision properties (empty value, non-ascii value), messages with blank lines / trailing
     newline / non-ascii text.
 
+Opt-in (C35; `build(extra_kinds=..., start=..., quiet=...)`, the defaults leave the generated histories as they were):
+
+  * paths vacated and re-occupied within one revision: an entry is removed and an existing directory / file / symlink
+    is moved onto its path without any other change, or a new entry is added there; two entries trade places;
+  * kind changes that keep the bytes git stores: a symlink becomes a regular file whose text is the link target (what
+    a checkout without symlink support commits) and the reverse.
+
 Everything is driven through the public WorkingTree API plus raw file-system edits, like vf.gen.
 """
 import os
@@ -66,10 +73,10 @@ EXTRA_KINDS = ["rename+edit", "rename+edit", "binary", "retarget", "emptydir", "
 REUSE_KINDS = ["takeover", "takeover", "takeover", "swap", "kindflip", "kindflip"]
 
 
-def extra_edits(rng, wt, names, log, kinds=None):
+def extra_edits(rng, wt, names, log, kinds=None, counts=(0, 1, 1, 2)):
     """0..2 composite edits the properties name explicitly; each is legal on the current tree."""
     kinds = kinds or EXTRA_KINDS
-    for _ in range(rng.choice([0, 1, 1, 2])):
+    for _ in range(rng.choice(list(counts))):
         k = rng.choice(kinds)
         try:
             _extra(rng, wt, names, k, log)
@@ -395,8 +402,12 @@ def commit(hist, name, wt, rng, revprops=True):
 
 
 def build(ctx, rng, fmt="2a", nrevs=8, nbranches=3, names=None, weights=None, merges=True, ghosts=False, extras=True,
-          revprops=True, extra_kinds=None, start=None):
-    """Random multi-branch history with merges (see module docstring).  Returns gen.Hist."""
+          revprops=True, extra_kinds=None, start=None, quiet=0.0):
+    """Random multi-branch history with merges (see module docstring).  Returns gen.Hist.
+
+    extra_kinds: pool the composite edits are drawn from (default EXTRA_KINDS); start: callable laying out the first
+    revision before the random ops (rich_start); quiet: share of ordinary revisions that consist of composite edits
+    only (no random single ops next to them, so a rename stays a pure rename)."""
     from breezy import errors
     from breezy.branch import Branch
     from breezy.workingtree import WorkingTree
@@ -453,9 +464,13 @@ def build(ctx, rng, fmt="2a", nrevs=8, nbranches=3, names=None, weights=None, me
             except errors.PointlessCommit:
                 wt.revert()
             continue
-        gen.random_delta(rng, wt, names, rng.randint(1, 5), weights, h.log)
-        if extras:
-            extra_edits(rng, wt, names, h.log, extra_kinds)
+        if quiet and extras and rng.random() < quiet:
+            h.log.append({"quiet-revision": name})
+            extra_edits(rng, wt, names, h.log, extra_kinds, counts=[1, 1, 2])
+        else:
+            gen.random_delta(rng, wt, names, rng.randint(1, 5), weights, h.log)
+            if extras:
+                extra_edits(rng, wt, names, h.log, extra_kinds)
         if ghosts and rng.random() < 0.15:
             wt.add_pending_merge(b"ghost-%d" % len(h.order))
         try:
